@@ -31,6 +31,7 @@ META = {
         "base class of the original, or a generic/wrapper exception whose text names the original class); for the JSON trips "
         "the cause / context-unless-suppressed / suppress flag structure equals the original's unfolding with back-edges cut. "
         "The oracle never calls repr/str on loaded arguments. distinct_nontrivial = distinct (class kind, arg kinds, trip, verdict class)."
+        " Exception classes defining __eq__ without __hash__ (unhashable) and with a value hash, alone, at every chain position and as four value-equal twins in one chain."
     ),
     "assumptions": ["classes are planted in a module registered in sys.modules; pickling happens in-process"],
     "required_counters": ["roundtrips", "exact_reconstructions", "standins", "chains_checked", "cycles_cut", "graphs_checked"],
@@ -83,12 +84,27 @@ def _plant() -> Any:
                 raise ValueError("code must not be negative")
             super().__init__(-code)
 
+    class EqNoHash(Exception):
+        """Defines __eq__ only: instances are unhashable (like a non-frozen dataclass exception)."""
+
+        def __eq__(self, other: Any) -> bool:
+            return type(other) is type(self) and other.args == self.args
+
+    class EqHash(Exception):
+        """Value equality and hash: two distinct instances with equal args are == and hash-equal."""
+
+        def __eq__(self, other: Any) -> bool:
+            return type(other) is type(self) and other.args == self.args
+
+        def __hash__(self) -> int:
+            return hash((type(self).__name__, self.args))
+
     class ChildOfPlain(Plain):
         def __init__(self, x: Any, y: Any = None, z: Any = None) -> None:
             super().__init__(x)
             self.lock = threading.Lock()  # makes instances un-picklable
 
-    for c in (Plain, PlainBase, CustomInit, KwOnly, Outer, FalsyBool, FalsyLen, ChildOfPlain, NegCode):
+    for c in (Plain, PlainBase, CustomInit, KwOnly, Outer, FalsyBool, FalsyLen, ChildOfPlain, NegCode, EqNoHash, EqHash):
         c.__module__ = "vexc"
         c.__qualname__ = c.__name__
         setattr(m, c.__name__, c)
@@ -112,6 +128,7 @@ def class_table() -> Dict[str, Any]:
         "ValueError": ValueError, "KeyError": KeyError, "KeyboardInterrupt": KeyboardInterrupt, "SystemExit": SystemExit,
         "GeneratorExit": GeneratorExit, "Plain": m.Plain, "PlainBase": m.PlainBase, "Inner": m.Outer.Inner, "Local": local(),
         "DynMissing": Dyn, "DynNone": DynNone, "FalsyBool": m.FalsyBool, "FalsyLen": m.FalsyLen,
+        "EqNoHash": m.EqNoHash, "EqHash": m.EqHash,
     }
 
 
@@ -654,7 +671,16 @@ def run_shard(shard: Any) -> Dict[str, Any]:
                     acc.sample({"chain_case": repr(case), "trip": trip})
         # falsy exception classes inside chains (truthiness tests in the serialiser)
         t = class_table()
-        for fcls in ("FalsyBool", "FalsyLen"):
+        # value-equal twins in one chain: no cycle, every link must survive
+        for tcls in ("EqHash", "EqNoHash"):
+            for trip in TRIPS:
+                root = t[tcls]("t", 3)
+                root.__cause__ = t[tcls]("t", 3)
+                root.__context__ = t[tcls]("t", 3)
+                root.__cause__.__context__ = t[tcls]("t", 3)
+                if lo == 0:
+                    check(f"twins:{tcls}", ("chain",), root, trip, acc, chain=True, rp={"twins": [tcls, trip]})
+        for fcls in ("FalsyBool", "FalsyLen", "EqNoHash", "EqHash"):
             for pos in ("root", "cause", "context"):
                 for trip in TRIPS:
                     root = t["ValueError"]("r") if pos != "root" else t[fcls]("f")
@@ -679,6 +705,14 @@ def replay(obj: Dict[str, Any]) -> int:
     elif "special" in obj:
         nm, trip = obj["special"]
         check(nm, ("special",), dict(special_instances())[nm], trip, acc)
+    elif "twins" in obj:
+        tcls, trip = obj["twins"]
+        t = class_table()
+        root = t[tcls]("t", 3)
+        root.__cause__ = t[tcls]("t", 3)
+        root.__context__ = t[tcls]("t", 3)
+        root.__cause__.__context__ = t[tcls]("t", 3)
+        check(f"twins:{tcls}", ("chain",), root, trip, acc, chain=True)
     elif "graph4" in obj:
         gi, tier, trip = obj["graph4"]
         check("graph", ("graph",), build_graph(graph4_cases(tier)[gi]), trip, acc, chain=True)
